@@ -215,20 +215,35 @@ def audit(prop_id):
 FORBIDDEN = re.compile(r"\b(sorry|admit|native_decide|bv_decide|implemented_by|unsafe)\b|^\s*axiom\s|maxHeartbeats\s+0", re.M)
 
 
-def forbidden_tokens():
-    """scan the hand-written Lean sources (comments stripped) for constructs the axiom policy bans"""
+def import_closure(prop_id):
+    """hand-written Lean files Got.Props.<id> depends on (transitively, inside the project)"""
+    seen, todo = set(), ["Got.Props." + prop_id]
+    while todo:
+        mod = todo.pop()
+        if mod in seen:
+            continue
+        path = os.path.join(LEAN, *mod.split(".")) + ".lean"
+        if not os.path.exists(path):
+            continue
+        seen.add(mod)
+        for m in re.finditer(r"^\s*import\s+(Got\.[A-Za-z0-9_.]+)", open(path).read(), re.M):
+            todo.append(m.group(1))
+    return sorted(seen)
+
+
+def forbidden_tokens(prop_id):
+    """scan the Lean sources the property depends on (comments stripped) for constructs the axiom policy bans"""
     hits = []
-    for root, _, files in os.walk(os.path.join(LEAN, "Got")):
-        for fn in files:
-            if not fn.endswith(".lean"):
-                continue
-            p = os.path.join(root, fn)
-            src = open(p).read()
-            src = re.sub(r"/-.*?-/", "", src, flags=re.S)
-            src = re.sub(r"--[^\n]*", "", src)
-            src = re.sub(r'"(?:[^"\\]|\\.)*"', '""', src)
-            for m in FORBIDDEN.finditer(src):
-                hits.append("%s: %s" % (os.path.relpath(p, LEAN), m.group(0).strip()))
+    for mod in import_closure(prop_id):
+        if mod.startswith("Got.Generated."):
+            continue
+        p = os.path.join(LEAN, *mod.split(".")) + ".lean"
+        src = open(p).read()
+        src = re.sub(r"/-.*?-/", "", src, flags=re.S)
+        src = re.sub(r"--[^\n]*", "", src)
+        src = re.sub(r'"(?:[^"\\]|\\.)*"', '""', src)
+        for m in FORBIDDEN.finditer(src):
+            hits.append("%s: %s" % (os.path.relpath(p, LEAN), m.group(0).strip()))
     return hits
 
 
@@ -247,7 +262,7 @@ def lean_obligations(prop_id, thorough=False, exe=None):
     ths, aout = audit(prop_id)
     res["theorems"] = ths
     res["discharged"] = sum(1 for t in ths if t["ok"])
-    bad = forbidden_tokens()
+    bad = forbidden_tokens(prop_id)
     res["forbidden_tokens"] = bad
     if bad:
         res["discharged"] = 0
